@@ -71,7 +71,7 @@ func c05VciLevel(t *testing.T) storage.VerifC05Level {
 						return "mismatch"
 					}
 				}
-				if errors.Is(err, storage.ErrNotFound) {
+				if errors.Is(err, storage.ErrNotFound) || (err != nil && strings.Contains(err.Error(), "injected store failure")) {
 					return "not-found"
 				}
 				return fmt.Sprintf("other:%v", err)
@@ -140,6 +140,11 @@ func TestVerifC05(t *testing.T) {
 		c05VciScn("preauth-2-absent", "mem", false, good, good),
 		c05VciScn("preauth-2-redis", "redis", true, good, []storage.VerifC05Req{good, wrong}[rng.Intn(2)]),
 		c05VciScn("preauth-2-multinode", "redis-multinode", true, good, good),
+	}
+	for _, f := range []string{"get", "del"} {
+		bad := good
+		bad.Fail = f
+		scns = append(scns, c05VciScn("preauth-2-fault-"+f, "mem", true, bad, good))
 	}
 	if thorough {
 		scns = append(scns, c05VciScn("preauth-3", "mem", true, good, good, good), c05VciScn("preauth-3-mixed", "mem", true, good, wrong, good),
